@@ -183,16 +183,25 @@ impl Protocol for Server {
                     let n_req = reads[k % reads.len()];
                     k += 1;
                     if stream {
-                        let data = match sock.recv(n_req).await {
-                            Ok(d) => d,
-                            Err(_) => break,
+                        // a scripted size of 0 stands for a whole-message read (recv_msg / TcpStream::read) mixed into the
+                        // byte-budget reads of the same socket
+                        let data = if n_req == 0 {
+                            match sock.recv_msg().await {
+                                Ok(m) => m.to_vec(),
+                                Err(_) => break,
+                            }
+                        } else {
+                            match sock.recv(n_req).await {
+                                Ok(d) => d,
+                                Err(_) => break,
+                            }
                         };
                         if conn < 0 {
                             // the first bytes identify the stream: find the client whose stream starts like this
                             conn = (0..totals.len()).find(|&c| data.iter().enumerate().all(|(i, b)| *b == sbyte(c, i))).map(|x| x as i64).unwrap_or(-2);
                         }
                         let ok = if conn >= 0 { data.iter().enumerate().take_while(|(i, b)| **b == sbyte(conn as usize, got + i)).count() } else { 0 };
-                        emit(json!({"ev":"read","c":conn,"n":n_req,"off":got,"len":data.len(),"ok":ok}));
+                        emit(json!({"ev":"read","c":conn,"n":if n_req == 0 { -1 } else { n_req as i64 },"off":got,"len":data.len(),"ok":ok}));
                         got += data.len();
                         if conn >= 0 && got >= totals[conn as usize] {
                             break;
@@ -235,12 +244,12 @@ pub fn scenario(run: u64, rng: &mut SmallRng, flavour: usize, backlog: bool, att
     let nclients = if backlog { 1 } else { [1usize, 1, 2, 3, 5][rng.gen_range(0..5)] };
     let loss = if backlog { 0 } else if stream { [0u32, 0, 10, 25][rng.gen_range(0..4)] } else { [0u32, 20][rng.gen_range(0..2)] };
     let dup = [0u32, 0, 10][rng.gen_range(0..3)];
-    let reads: Vec<usize> = (0..rng.gen_range(1..4)).map(|_| [1usize, 2, 4, 7, 64, 1000, 100000][rng.gen_range(0..7)]).collect();
+    let reads: Vec<usize> = (0..rng.gen_range(1..4)).map(|_| [1usize, 2, 4, 7, 64, 1000, 100000, 0, 0][rng.gen_range(0..9)]).collect();
     let slow_us = [0u64, 0, 0, 3000][rng.gen_range(0..4)];
     // (backlog scenario: the reader starts only after more than 255 one-byte messages have queued up)
     let (reads, slow_us) = if backlog { (vec![1000usize], 0) } else { (reads, slow_us) };
     // small reads (and a slow reader) keep the streams short, so that a run ends well within its watchdog
-    let small = *reads.iter().min().unwrap() < 64;
+    let small = reads.iter().filter(|r| **r > 0).min().map_or(false, |m| *m < 64);
     let cap = if small && slow_us > 0 { 40 } else if small { 400 } else if slow_us > 0 { 3000 } else { usize::MAX };
     let mut plans = vec![];
     for c in 0..nclients {
